@@ -214,11 +214,24 @@ def extract_sgdic(rel="xfab/sg.py"):
         raise AnalysisError("anchor vanished: sgdic in %s" % rel)
     node = m.assigns["sgdic"].value
     if not isinstance(node, ast.Dict):
-        raise AnalysisError("sgdic is not a dict literal")
+        return _evaluated_table(m, "sgdic", node.lineno, lambda v: v)
     out = []
     for k, v in zip(node.keys, node.values):
         out.append((literal(k), literal(v), k.lineno))
     return out
+
+
+def _evaluated_table(m, name, lineno, conv):
+    """a module-level table that is not a dictionary literal (built by a helper, a comprehension, from tuples): evaluated (E7)"""
+    from .objeval import ObjEvaluator, PyRaise
+    from .symeval import RaiseReached
+    try:
+        d = ObjEvaluator(m, max_depth=10).module_constant(name)
+    except (PyRaise, RaiseReached):
+        raise AnalysisError("%s in %s raises when evaluated" % (name, m.rel))
+    if not isinstance(d, dict):
+        raise AnalysisError("%s in %s does not evaluate to a dictionary" % (name, m.rel))
+    return [(k, conv(_to_py(v)), lineno) for k, v in d.items()]
 
 
 def extract_formfactor(rel="xfab/atomlib.py"):
@@ -227,7 +240,7 @@ def extract_formfactor(rel="xfab/atomlib.py"):
         raise AnalysisError("anchor vanished: formfactor in %s" % rel)
     node = m.assigns["formfactor"].value
     if not isinstance(node, ast.Dict):
-        raise AnalysisError("formfactor is not a dict literal")
+        return _evaluated_table(m, "formfactor", node.lineno, lambda v: [float(x) for x in v] if isinstance(v, list) else v)
     out = []
     for k, v in zip(node.keys, node.values):
         out.append((literal(k), literal(v), k.lineno))
@@ -314,6 +327,17 @@ class SegmModel:
         try:
             for st in body_wo_doc(fn):
                 if isinstance(st, (ast.For, ast.While)):
+                    # a loop that can be evaluated (a scan of a static table) belongs to the prefix; the walk cannot
+                    trial = {k_: (v_.copy() if isinstance(v_, Arr) else v_) for k_, v_ in env.items()}
+                    try:
+                        ev.exec_stmt(st, trial)
+                        env.clear()
+                        env.update(trial)
+                        continue
+                    except (PyRaise, RaiseReached, _Return):
+                        raise
+                    except AnalysisError:
+                        pass
                     if isinstance(st, ast.For):
                         try:
                             t = is_table(ev.eval(st.iter, env))
@@ -325,10 +349,15 @@ class SegmModel:
                 ev.exec_stmt(st, env)
         except (PyRaise, RaiseReached, _Return):
             return None            # the combination is rejected before the walk starts
-        for v in env.values():
-            t = is_table(v) if not isinstance(v, (str, bool, type(None))) else None
-            if t is not None and t not in found:
-                found.append(t)
+        # tables bound to names the walk itself mentions (a scan of a table of tables leaves its loop variables behind)
+        used = {n_.id for n_ in ast.walk(st) if isinstance(n_, ast.Name)} if isinstance(st, (ast.For, ast.While)) else set(env)
+        if not found:
+            for k_, v in env.items():
+                if k_ not in used:
+                    continue
+                t = is_table(v) if not isinstance(v, (str, bool, type(None))) else None
+                if t is not None and t not in found:
+                    found.append(t)
         if len(found) > 1:
             raise AnalysisError("%s genhkl_base: several cone tables are alive when the walk starts for Laue %r / %r" % (self.rel, Laue, cc))
         return found[0] if found else None
